@@ -13,7 +13,7 @@ from concurrent.futures import ThreadPoolExecutor
 
 VERIF = os.path.dirname(os.path.dirname(os.path.abspath(__file__)))
 PY = "/venv/bin/python"
-SCRATCH = "/tmp/rfrun"
+SCRATCH = "/tmp/rfrun-%d" % os.getpid()   # one scratch tree per invocation: concurrent runs do not touch each other
 
 
 def sh(cmd, cwd=None, timeout=1800):
@@ -65,7 +65,7 @@ def rerun(parts):
     def one(d):
         label = "%s/%s" % (os.path.basename(os.path.dirname(d)), os.path.basename(d))
         return label, run_checks(os.path.join(d, "patch.diff"), label.replace("/", "-"))
-    with ThreadPoolExecutor(max_workers=8) as ex:
+    with ThreadPoolExecutor(max_workers=14) as ex:
         res = list(ex.map(one, dirs))
     bad = 0
     for name, (reports, err) in res:
